@@ -49,6 +49,14 @@ class FuncV:
         return f"<function {self.fi.qualname}>"
 
 
+class ListIter:
+    """iter(sequence): a position in a concrete sequence; `next()` advances it and a for loop continues from where it stands."""
+
+    def __init__(self, items: list):
+        self.items = items
+        self.pos = 0
+
+
 class Decimals(int):
     """`settings.decimals`: a number whose use inside a format specification marks the library's own number format."""
 
@@ -69,11 +77,15 @@ class Arr:
 
     @property
     def shape(self) -> tuple:
+        if self.ndim == 0:
+            return ()
         if self.ndim == 1:
             return (len(self.data),)
         return (len(self.data), len(self.data[0]) if self.data else 0)
 
     def flat(self) -> list:
+        if self.ndim == 0:
+            return [self.data]
         return list(self.data) if self.ndim == 1 else [x for row in self.data for x in row]
 
     def transpose(self) -> "Arr":
@@ -632,7 +644,7 @@ class ObjExec(AbsExec):
             pre = [f.bound] if f.bound is not None else []
             return self.invoke(f.fi, pre + args, kw, e)
         if isinstance(f, tuple) and len(f) == 2 and f[0] == "builtin" and f[1] in ("str", "repr", "isinstance", "issubclass", "float", "int", "bool", "type", "callable", "map", "filter",
-                                                                                 "format", "getattr", "hasattr", "setattr", "len", "iter", "next", "print", "id", "hash", "vars", "list", "tuple", "sorted"):
+                                                                                 "format", "getattr", "hasattr", "setattr", "len", "iter", "next", "print", "id", "hash", "vars", "list", "tuple", "sorted", "object"):
             args, kw = self.arguments(e, env)
             r = self.own_builtin(f[1], args, kw, e, env)
             if r is not NotImplemented:
@@ -754,11 +766,15 @@ class ObjExec(AbsExec):
                 if spec.name in ("tuple",) and isinstance(v, tuple) and v and v[0] in ("builtin", "bound", "exc-class") and len(v) in (2, 3):
                     return False
                 return isinstance(v, pt)
+            if spec.name in ("np.ndarray", "numpy.ndarray"):
+                return isinstance(v, Arr)
             if spec.name.startswith(("np.", "numpy.")) or spec.name in ("Enum", "enum.Enum"):
                 if spec.name in ("Enum", "enum.Enum"):
                     return isinstance(v, MObj) and bool(v.fields.get("__enum__"))
                 return False  # the model holds no numpy values
         if isinstance(spec, Opaque):
+            if spec.what in ("np.ndarray", "numpy.ndarray"):
+                return isinstance(v, Arr)
             if spec.what.startswith(("np.", "numpy.", "import:numpy")):
                 return False
         raise self.unknown(e, f"isinstance against {spec!r}")
@@ -838,11 +854,29 @@ class ObjExec(AbsExec):
                 if m is None:
                     raise Internal("TypeError", f"`{unparse(e)[:60]}`: object has no len()", e)
                 return self.invoke(m, [v], {}, e)
+        if name == "iter" and len(args) == 1:
+            if isinstance(args[0], ListIter):
+                return args[0]
+            return ListIter(list(self.iterate(args[0], e)))
+        if name == "next" and args and isinstance(args[0], ListIter):
+            it = args[0]
+            if it.pos < len(it.items):
+                it.pos += 1
+                return it.items[it.pos - 1]
+            if len(args) > 1:
+                return args[1]
+            raise Raised("StopIteration", e)
+        if name in ("list", "tuple") and len(args) == 1 and isinstance(args[0], ListIter):
+            rest = args[0].items[args[0].pos:]
+            args[0].pos = len(args[0].items)
+            return tuple(rest) if name == "tuple" else list(rest)
         if name in ("iter", "list", "tuple", "sorted") and len(args) == 1 and isinstance(args[0], str):
             items = list(args[0])
             return tuple(items) if name == "tuple" else (sorted(items) if name == "sorted" else items)
         if name == "print":
             return None
+        if name == "object" and not args:
+            return MObj("<object>", {})  # a sentinel: an object equal only to itself
         if name in ("id", "hash") and len(args) == 1:
             return id(args[0])
         if name == "vars" and len(args) == 1 and isinstance(args[0], MObj):
@@ -897,6 +931,10 @@ class ObjExec(AbsExec):
         raise self.unknown(e, "application of a value that is not a modelled function")
 
     def iterate(self, v: Any, e: ast.AST):  # type: ignore[no-untyped-def]
+        if isinstance(v, ListIter):
+            rest = v.items[v.pos:]
+            v.pos = len(v.items)
+            return rest
         if isinstance(v, str):
             return list(v)
         if isinstance(v, Arr):
@@ -968,7 +1006,9 @@ class ObjExec(AbsExec):
             if name == "transpose" and not args:
                 return recv.transpose()
             if name == "copy":
-                return Arr([list(r) for r in recv.data] if recv.ndim == 2 else list(recv.data), recv.ndim)
+                return Arr([list(r) for r in recv.data] if recv.ndim == 2 else (list(recv.data) if recv.ndim == 1 else recv.data), recv.ndim)
+            if name == "item" and not args and len(recv.flat()) == 1:
+                return recv.flat()[0]
             raise self.unknown(e, f"array method {name}")
         if isinstance(recv, str) and f"method:{name}" not in self.hooks:
             if name == "join" and len(args) == 1:
@@ -1047,6 +1087,29 @@ class ObjExec(AbsExec):
                     env.pop(nm, None)  # a class / function of the package: resolved by name
                     continue
                 env[nm] = Opaque(a.name if isinstance(s, ast.Import) else nm)
+            return
+        if isinstance(s, ast.For):
+            it = self.ev(s.iter, env)
+            if isinstance(it, ListIter):
+                from .absexec import _Break, _Continue
+
+                broke = False
+                while it.pos < len(it.items):
+                    it.pos += 1
+                    self.bind(s.target, it.items[it.pos - 1], env)
+                    try:
+                        self.block(s.body, env)
+                    except _Break:
+                        broke = True
+                        break
+                    except _Continue:
+                        continue
+                if not broke:
+                    self.block(s.orelse, env)
+                return
+            env2 = env
+            env2["<iter>"] = it
+            super().stmt(ast.copy_location(ast.For(target=s.target, iter=ast.Name(id="<iter>", ctx=ast.Load()), body=s.body, orelse=s.orelse), s), env2)
             return
         if isinstance(s, ast.ClassDef):
             raise self.unknown(s, "local class")
